@@ -376,7 +376,7 @@ Definition find_path (W : wsdl) (path : str) : fres :=
   | [] => FErr                                   (* parts[0]: IndexError *)
   | p0 :: rest =>
       match qualify W p0 with
-      | QErr => FErr
+      | QErr => FNone                            (* root: any exception of qualify -> BadPath *)
       | QOk n u =>
           match root_lookup W n u with
           | LNone => FNone
